@@ -269,3 +269,33 @@ Theorem finalize_gives_well_indexed : forall g hasc zero snz fi,
 Proof. intros. eapply finalize_well_indexed; eauto. Qed.
 Print Assumptions finalize_gives_well_indexed.
 
+
+(* --- character level (coq/Geom/GeomLex.v, under the token-level readers; tied by correspondence on the files and on
+   textual variants of them): what io_utils::token accepts between a keyword and the colon *)
+From OM Require Import Geom.GeomLex Geom.GeomLexProofs.
+
+Theorem lexer_name_after_one_blank : forall sp name rest, isspace sp = true -> plain name -> name <> [] ->
+  token (mkS (sp :: name ++ 58%nat :: rest) false) = (mkS rest false, name).
+Proof. exact token_one_blank. Qed.
+Print Assumptions lexer_name_after_one_blank.
+
+Theorem lexer_two_blanks_rejected : forall sp1 sp2 l, isspace sp1 = true -> isspace sp2 = true ->
+  bad (fst (token (mkS (sp1 :: sp2 :: l) false))) = true.
+Proof. exact token_two_blanks. Qed.
+Print Assumptions lexer_two_blanks_rejected.
+
+Theorem lexer_blank_before_colon_rejected : forall sp name sp2 rest, isspace sp = true -> plain name -> name <> [] ->
+  isspace sp2 = true -> bad (fst (token (mkS (sp :: name ++ sp2 :: 58%nat :: rest) false))) = true.
+Proof. exact token_blank_before_colon. Qed.
+Print Assumptions lexer_blank_before_colon_rejected.
+
+Theorem lexer_failed_stream_is_inert : forall s, bad s = true ->
+  ws s = s /\ skip_comments s = s /\ (forall p, mtch p s = s) /\ (forall p, mtch_opt p s = (s, false))
+  /\ read_nat s = (s, 0%nat) /\ read_word s = (s, []) /\ token s = (s, []) /\ filename s = (s, []) /\ line_tokens s = (s, []).
+Proof. exact failed_stream_is_inert. Qed.
+Print Assumptions lexer_failed_stream_is_inert.
+
+Theorem lexer_comment_line_skipped : forall f body rest, ~ In 10%nat body ->
+  skip_comments_l (S f) (35%nat :: body ++ 10%nat :: rest) = skip_comments_l f rest.
+Proof. exact comment_line_skipped. Qed.
+Print Assumptions lexer_comment_line_skipped.
